@@ -396,6 +396,45 @@ impl AnyStore {
         }
     }
 
+    /// Something done to a shared store from outside a ceremony (the lock is free: ceremonies lock per store call):
+    /// `{"act":"replace","p":passkey}` (insert or replace the record with that credential id), `{"act":"remove","id":hex}`,
+    /// `{"act":"set_disc","disc":..}` (reference store: its capability changes).
+    pub fn apply_action(&self, act: &Value) {
+        fn on_ref(r: &mut RefStore, act: &Value) {
+            match act["act"].as_str().unwrap() {
+                "replace" => {
+                    let p = passkey_from_json(&act["p"]);
+                    if let Some(slot) = r.items.iter_mut().find(|q| q.credential_id == p.credential_id) { *slot = p } else { r.items.push(p) }
+                }
+                "remove" => { let id = crate::unhex(act["id"].as_str().unwrap()); r.items.retain(|q| q.credential_id.as_slice() != id.as_slice()) }
+                "set_disc" => r.disc = match act["disc"].as_str().unwrap() { "full" => 0, "only_non" => 1, _ => 2 },
+                k => panic!("unknown action {k}"),
+            }
+        }
+        fn on_mem(m: &mut MemoryStore, act: &Value) {
+            match act["act"].as_str().unwrap() {
+                "replace" => { let p = passkey_from_json(&act["p"]); m.insert(p.credential_id.clone().into(), p); }
+                "remove" => { let id = crate::unhex(act["id"].as_str().unwrap()); m.retain(|_, q| q.credential_id.as_slice() != id.as_slice()) }
+                _ => {}
+            }
+        }
+        fn on_opt(o: &mut Option<Passkey>, act: &Value) {
+            match act["act"].as_str().unwrap() {
+                "replace" => *o = Some(passkey_from_json(&act["p"])),
+                "remove" => { let id = crate::unhex(act["id"].as_str().unwrap()); if o.as_ref().is_some_and(|q| q.credential_id.as_slice() == id.as_slice()) { *o = None } }
+                _ => {}
+            }
+        }
+        match self {
+            AnyStore::ArcMutexMemory(a) => on_mem(&mut a.try_lock().expect("store locked during the prompt"), act),
+            AnyStore::ArcRwLockMemory(a) => on_mem(&mut a.try_write().expect("store locked during the prompt"), act),
+            AnyStore::ArcMutexOpt(a) => on_opt(&mut a.try_lock().expect("store locked during the prompt"), act),
+            AnyStore::ArcRwLockRef(a) => on_ref(&mut a.try_write().expect("store locked during the prompt"), act),
+            AnyStore::ArcMutexRef(a) => on_ref(&mut a.try_lock().expect("store locked during the prompt"), act),
+            _ => panic!("prompt-time actions need a shared (Arc) store"),
+        }
+    }
+
     /// Content sorted by credential id (canonical form for comparison). Ref stores keep order.
     pub fn snapshot(&self) -> Value {
         fn mem(m: &MemoryStore) -> Vec<Value> {
@@ -436,6 +475,9 @@ pub struct Shared {
     pub yield_before_calls: bool,
     /// tag added to every log entry (which ceremony made the call), for schedules
     pub tag: Option<u64>,
+    /// a second handle on the shared store (Arc kinds): what the application / another session can do to the store while
+    /// a ceremony waits in the consent prompt (`"during"` actions of a user script entry)
+    pub prompt_store: Option<AnyStore>,
 }
 
 pub type SharedRef = Arc<Mutex<Shared>>;
@@ -620,6 +662,14 @@ impl UserValidationMethod for ScriptedUser {
             *pos += 1;
             a
         };
+        // what happens to the shared store while the prompt is on screen
+        if let Some(acts) = ans["during"].as_array() {
+            let sh = self.sh.lock().unwrap();
+            let st = sh.prompt_store.as_ref().expect("\"during\" actions need a shared (Arc) store");
+            for a in acts {
+                st.apply_action(a);
+            }
+        }
         let (r, rj) = if let Some(code) = ans["err"].as_u64() {
             let e = Ctap2Error::try_from(code as u8).expect("scripted user error must be a known CTAP2 error code");
             (Err(e), json!({"err": code}))
